@@ -536,12 +536,12 @@ func (mw *TinkEncryptionPartStoreMiddleware) GetPart(ctx context.Context, tx dat
 			finalDEK, segmentSize, headerEnd, err := mw.readPartHeaderAndDEK(rc, partId)
 			if err != nil {
 				closeUnderlying()
-				return nil, err
+				return nil, notEOF(err)
 			}
 			seekableReader, err := newSeekableDecryptingReader(rs, startPos+headerEnd, finalDEK, partId.Bytes(), segmentSize)
 			if err != nil {
 				closeUnderlying()
-				return nil, err
+				return nil, notEOF(err)
 			}
 			return &compositeReadSeekCloser{seekableReader, closerFunc(closeUnderlying)}, nil
 		})
@@ -554,7 +554,7 @@ func (mw *TinkEncryptionPartStoreMiddleware) GetPart(ctx context.Context, tx dat
 		finalDEK, segmentSize, _, err := mw.readPartHeaderAndDEK(rc, partId)
 		if err != nil {
 			closeUnderlying()
-			return nil, err
+			return nil, notEOF(err)
 		}
 
 		// Create streaming AEAD with the final DEK
@@ -568,7 +568,7 @@ func (mw *TinkEncryptionPartStoreMiddleware) GetPart(ctx context.Context, tx dat
 		decryptReader, err := dekStreamingAEAD.NewDecryptingReader(rc, partId.Bytes())
 		if err != nil {
 			closeUnderlying()
-			return nil, err
+			return nil, notEOF(err)
 		}
 
 		// Return a composite reader that wraps the decrypt reader with the underlying closer.
@@ -579,6 +579,17 @@ func (mw *TinkEncryptionPartStoreMiddleware) GetPart(ctx context.Context, tx dat
 	})
 
 	return ioutils.NewReadCloserWithCloseHook(lazyReader, closeUnderlying), nil
+}
+
+// notEOF keeps io.EOF from leaving the lazy initialisers: io.ReadFull answers
+// io.EOF when the stored stream ends exactly where the length prefix, the part
+// header or the tink stream header should begin, and the consumer of the
+// returned reader would take that for the clean end of an empty part.
+func notEOF(err error) error {
+	if err == io.EOF {
+		return io.ErrUnexpectedEOF
+	}
+	return err
 }
 
 // readPartHeaderAndDEK consumes the part header from rc, decrypts the DEK via
